@@ -29,7 +29,7 @@ res=$(/verif/tools/with_patch.sh "$dst/patch.diff" C04 C09 C10 C11 2>&1)
 echo "$res"
 python3 - "$dst" "$name" "$t" "$with" "$without" "$res" <<'PY'
 import json, sys, os
-dst, name, suite, w, wo, res = sys.argv[1:7]
+dst, name, suite, w, wo, res = [a.encode('utf-8', 'replace').decode('utf-8', 'replace') for a in sys.argv[1:7]]
 am = {}
 try: am = json.load(open(f"{dst}/agent_meta.json"))
 except Exception: pass
